@@ -79,36 +79,6 @@ Fixpoint typed (t : ty) (w : pyval) {struct t} : bool :=
       end
   end.
 
-(* the only part of `typed` that is not derived from the first parse: the result of an exclusive-or is an exact instance of
-   one of its arguments (true of what the loop returns; its proof is left out).  Trivially true of types without ^ *)
-Fixpoint xor_exact (t : ty) (w : pyval) {struct t} : bool :=
-  match t with
-  | TLogic CXor args => existsb (fun a => exact_type a w) args
-  | TRule origin args ell _ _ _ _ =>
-      if tuple_origin origin ell && negb (match args with [] => true | _ => false end) then
-        match w with
-        | PTuple xs =>
-            (fix tl (ts : list ty) (ys : list pyval) {struct ts} : bool :=
-               match ts, ys with
-               | [], _ => true
-               | a :: ts', y :: ys' => xor_exact a y && tl ts' ys'
-               | _ :: _, [] => true
-               end) args xs
-        | _ => true
-        end
-      else
-      match args with
-      | [] => match origin with Some ot => xor_exact ot w | None => true end
-      | [a] => match items_of w with Some xs => forallb (xor_exact a) xs | None => true end
-      | [kt; vt] => match w with
-                    | PDict kvs => forallb (fun kv => xor_exact kt (fst kv) && xor_exact vt (snd kv)) kvs
-                    | _ => true
-                    end
-      | _ => true
-      end
-  | _ => true
-  end.
-
 (* the item / key / value policies are the default 'throw' (the other two are separate findings) *)
 Definition throwing (o : options) : Prop :=
   o_invalid_items o = Throw /\ o_invalid_keys o = Throw /\ o_invalid_values o = Throw.
@@ -118,4 +88,4 @@ Definition is_throw (p : policy) : bool := match p with Throw => true | _ => fal
 Definition throwing_b (o : options) : bool :=
   is_throw (o_invalid_items o) && is_throw (o_invalid_keys o) && is_throw (o_invalid_values o).
 Definition in_fragment (o : options) (t : ty) (w : pyval) : bool :=
-  throwing_b o && stable t && xor_exact t w.
+  throwing_b o && stable t.
